@@ -46,7 +46,7 @@ finite_ok / moved / acc of every transition; TLC validates them against TraceMHK
 """
 META = {
     "claimed": True,
-    "engine": "MHKernel.tla + CWSweep.tla + MHReconf.tla + MHOutside.tla + MHMagnitude.tla",
+    "engine": "MHKernel.tla + CWSweep.tla + MHReconf.tla + MHOutside.tla + MHMagnitude.tla + MHTypes.tla",
     "text": ("TLC checks on every reachable state of the bounded lattice model (d=1: 5 points, d=2: 3x3; quadratic, asymmetric "
              "and NaN/-inf-holed target tables; RW, CW, PCN, MALA x both interfaces; scalar, per-component and re-tuned scales; "
              "state reload) that the log-ratio computed from the caches is the Metropolis-Hastings log-ratio of the proposal "
@@ -96,6 +96,13 @@ META = {
              "RatioOfDensities (exp(lp(y)) / exp(lp(x)): 0 / 0) are refuted on DecisionIsMH and on NaNDecisionNeverAccepts; every "
              "emitted case is one real transition (two-point table target, drift table, scripted noise and uniform) on all "
              "kernels of both interfaces: proposal, decision, next point, cached values; "
+             "MHTypes.tla gives the configuration the TYPE of its numbers: step size as python float / python int / numpy int64 / "
+             "int32 / integer array with the integer values 2, 3, 4 (pCN: 3/5, 4/5, integer 1) and - pCN - prior class Gaussian / "
+             "Normal x prior mean (0, 2) handed over as float array / python float / python int / numpy float64 / integer array / "
+             "list; RatioIsMH, DetailedBalance, CacheCoherent, RejectKeepsState in dimension 2; deviations IntegerReciprocal (1/eps "
+             "of the Langevin log-proposal in the type of eps) and ScalarMeanIgnored (pCN takes the prior mean only when it is an "
+             "array) are refuted on RatioIsMH; every emitted case is one real transition on all kernels of both interfaces (+ legacy "
+             "pCN with the (likelihood, prior) tuple, + ULA of both interfaces on the MALA cases); "
              "recorded real runs are validated by TLC against TraceMHKernel."),
     "note": ("Targets are tables on a finite lattice (the ratio identities do not depend on the table values); a computed ratio "
              "must deviate by more than 1e-6 relative to flip a scripted decision. Legacy CWMH is driven with a copy of x "
@@ -118,7 +125,7 @@ META = {
              "chains are not started at a NaN point. Extreme magnitudes: the decision for the uniform exactly 0 is asserted only "
              "when exp(a + b) is a normal double or a + b >= 0 (u <= exp(r) vs u < exp(r) differ on a set of measure zero when "
              "exp(r) underflows); thresholds exp(r)(1 -/+ 1e-6) are scripted only for -708 < r < 0."),
-    "technique": "TLA+ specs (MHKernel, CWSweep, MHReconf, MHOutside, MHMagnitude) model-checked with TLC; TLC-generated behaviours replayed into the samplers with scripted randomness; recorded traces validated by TLC",
+    "technique": "TLA+ specs (MHKernel, CWSweep, MHReconf, MHOutside, MHMagnitude, MHTypes) model-checked with TLC; TLC-generated behaviours replayed into the samplers with scripted randomness; recorded traces validated by TLC",
 }
 
 import concurrent.futures, hashlib, json, os, random, time, warnings
@@ -159,6 +166,11 @@ MAGNITUDE_DEVIATIONS = (  # MHMagnitude.tla: cfg, invariant that must be violate
     ("MHMagnitude.ProductOfExponentials_nan.deviation.cfg", "NaNDecisionNeverAccepts"),
     ("MHMagnitude.RatioOfDensities.deviation.cfg", "DecisionIsMH"),
     ("MHMagnitude.RatioOfDensities_nan.deviation.cfg", "NaNDecisionNeverAccepts"),
+)
+
+TYPES_DEVIATIONS = (  # MHTypes.tla: cfg, invariant that must be violated
+    ("MHTypes.IntegerReciprocal.deviation.cfg", "RatioIsMH"),
+    ("MHTypes.ScalarMeanIgnored.deviation.cfg", "RatioIsMH"),
 )
 
 _SERIAL = [0]
@@ -1272,6 +1284,78 @@ def magnitude_facet(ctx, res):
     return len(cases), len(cases)
 
 
+def types_facet(ctx, res):
+    """replay of the cases of MHTypes.<tier>.cfg: one transition in dimension 2 per kernel x interface x step size handed over as
+    python float / python int / numpy int64 / numpy int32 / integer array (values >= 2) and - pCN - prior class (Gaussian / Normal)
+    x type of the prior mean (array / python float / python int / numpy float64 / integer array / list) x mean (0, 2)"""
+    from cuqiverif import mhtypes_real as Y
+    from cuqiverif.core import MachineryError
+    ctx.model_must_hold(res["types"], "MHTypes")
+    cases = [c for c in res["types"].cases if c["kind"] == "typ"]
+    if not cases:
+        raise MachineryError("no cases emitted by MHTypes")
+    cases.sort(key=lambda c: json.dumps(c, sort_keys=True))
+    # vacuity guards on the emission: integer-typed step sizes >= 2 with both decision classes for every kernel x interface,
+    # every prior class x mean type with a non-zero mean for both pCN interfaces
+    ints, means = {}, set()
+    for c in cases:
+        f = c["cfg"]
+        if f["k"] != "PCN" and f["st"] in Y.INT_TYPES and f["sc"][0] >= 2 and f["sc"][1] == 1:
+            ints.setdefault((f["k"], f["iface"], f["st"]), set()).add(c["cls"])
+        if f["k"] == "PCN" and f["m"] != 0 and c["cfg"]["x0"] != c["cfg"]["y"]:
+            means.add((f["iface"], f["pc"], f["mt"]))
+    for kern in ("RW", "CW", "MALA"):
+        for iface in ("exp", "leg"):
+            for st in ("pyint", "npint64", "npint32") + (("intarr",) if kern == "CW" else ()):
+                if ints.get((kern, iface, st)) != {"Below", "Above"}:
+                    raise MachineryError("types facet vacuous: %s/%s with a step size of type %s >= 2: classes %r" % (
+                        kern, iface, st, sorted(ints.get((kern, iface, st), ()))))
+    for iface in ("exp", "leg"):
+        for pc in ("Gaussian", "Normal"):
+            for mt in ("arr", "pyfloat", "pyint", "npfloat64", "intarr", "list"):
+                if (iface, pc, mt) not in means:
+                    raise MachineryError("types facet vacuous: no pCN case %s/%s with a non-zero mean of type %s" % (iface, pc, mt))
+    t0 = time.time()
+    stats, nok, n = {}, 0, 0
+    for c in cases:
+        f = c["cfg"]
+        reals = [None]
+        if f["k"] == "PCN" and f["iface"] == "leg":
+            reals.append("tuple")           # legacy target form (likelihood, prior)
+        if f["k"] == "MALA" and c["cls"] == "Below":
+            reals.append("ula")             # the unadjusted kernel shares proposal and caches with MALA
+        for real in reals:
+            ctx.case(("typ", f["k"], f["iface"], tuple(f["sc"]), f["st"], f["pc"], f["mt"], f["m"], tuple(f["x0"]), tuple(f["y"]),
+                      c["cls"], real or ""), nontrivial=f["x0"] != f["y"], facet="types")
+            nok += bool(Y.run_case(ctx, c, stats, real=real))
+            n += 1
+            ctx.traces += 1
+    # binding self-test: an expected decision turned round must be reported
+    tested = 0
+    for kern in ("RW", "CW", "PCN", "MALA"):
+        for iface in ("exp", "leg"):
+            for want in (0, 1):
+                c = next((q for q in cases if (q["cfg"]["k"], q["cfg"]["iface"]) == (kern, iface) and q["acc"] == want
+                          and q["cfg"]["x0"] != q["cfg"]["y"]), None)
+                if c is None:
+                    raise MachineryError("binding self-test of the types facet impossible for %s/%s" % (kern, iface))
+                col = _Collector()
+                Y.run_case(col, dict(c, acc=1 - want), {})
+                if not any(h.endswith("/decision") for h in col.hits) and not ctx.violations:
+                    raise MachineryError("binding self-test: a wrong expectation of the types facet was not reported (%s/%s)" % (kern, iface))
+                tested += 1
+    ctx.observe("types", dict(stats, cases_emitted=len(cases), transitions=n, conforming=nok, binding_selftests=tested,
+                              wall_s=round(time.time() - t0, 1)))
+    mc = next((c for c in cases if c["cfg"]["k"] == "MALA" and c["cfg"]["iface"] == "leg" and c["cfg"]["st"] == "pyint"
+               and c["cls"] == "Above"), cases[0])
+    ctx.sample({"types_case": mc})
+    pc = next((c for c in cases if c["cfg"]["k"] == "PCN" and c["cfg"]["pc"] == "Normal" and c["cfg"]["mt"] == "pyfloat"
+               and c["cfg"]["m"] == 2 and c["cfg"]["x0"] != c["cfg"]["y"]), cases[0])
+    ctx.sample({"types_case": pc})
+    ctx.observe("named_deviations_types", {cfg: inv for cfg, inv in TYPES_DEVIATIONS})
+    return len(cases), n
+
+
 def posinf_probe(ctx):
     """a proposal whose log-density is +inf: the Metropolis-Hastings formula gives acceptance probability 1, the property names
     NaN and -inf only - what the kernels do is recorded, not asserted"""
@@ -1359,13 +1443,15 @@ def run(ctx):
     rk = dict(extra_modules=("MHKernel.tla",), timeout=3000)
     ALLDEV = ([(c, i, "MHKernel", {"timeout": 2400}) for c, i in DEVIATIONS] + [(c, i, "CWSweep", {"timeout": 2400}) for c, i in SWEEP_DEVIATIONS] +
               [(c, i, "MHReconf", rk) for c, i in RECONF_DEVIATIONS] + [(c, i, "MHOutside", rk) for c, i in OUTSIDE_DEVIATIONS] +
-              [(c, i, "MHMagnitude", {"timeout": 2400}) for c, i in MAGNITUDE_DEVIATIONS])
+              [(c, i, "MHMagnitude", {"timeout": 2400}) for c, i in MAGNITUDE_DEVIATIONS] +
+              [(c, i, "MHTypes", {"timeout": 2400}) for c, i in TYPES_DEVIATIONS])
     devpool = concurrent.futures.ThreadPoolExecutor(max_workers=8)
     with concurrent.futures.ThreadPoolExecutor(max_workers=12) as pool:
         jobs["main"] = pool.submit(_tlc_retry, ctx, "MHKernel", cfg="MHKernel.%s.cfg" % tier, workers=8, timeout=3000)
         jobs["deep"] = pool.submit(_tlc_retry, ctx, "MHKernel", cfg="MHKernel.deep.%s.cfg" % tier, workers=8, timeout=3000)
         jobs["outside"] = pool.submit(_tlc_retry, ctx, "MHOutside", cfg="MHOutside.%s.cfg" % tier, workers=2, **rk)
         jobs["magnitude"] = pool.submit(_tlc_retry, ctx, "MHMagnitude", cfg="MHMagnitude.%s.cfg" % tier, workers=2, timeout=2400)
+        jobs["types"] = pool.submit(_tlc_retry, ctx, "MHTypes", cfg="MHTypes.%s.cfg" % tier, workers=2, timeout=2400)
         jobs["reconf"] = pool.submit(_tlc_retry, ctx, "MHReconf", cfg="MHReconf.%s.cfg" % tier, workers=4, **rk)
         jobs["relayout"] = pool.submit(_tlc_retry, ctx, "MHReconf", cfg="MHReconf.layout.%s.cfg" % tier, workers=2, **rk)
         jobs["propsym"] = pool.submit(_tlc_retry, ctx, "MHReconf", cfg="MHReconf.propsym.%s.cfg" % tier, workers=2, **rk)
@@ -1384,13 +1470,15 @@ def run(ctx):
             trace_error = ex
         # the facets of MHOutside / MHReconf (short TLC runs) are replayed while the large model-checking runs are still in progress
         res = {}
-        reconf_error, rcounts, ocounts, mcounts = None, None, None, None
+        reconf_error, rcounts, ocounts, mcounts, tcounts = None, None, None, None, None
         try:
             if trace_error is None or isinstance(trace_error, MachineryError):
                 res["outside"] = jobs["outside"].result()
                 ocounts = outside_facet(ctx, res)
                 res["magnitude"] = jobs["magnitude"].result()
                 mcounts = magnitude_facet(ctx, res)
+                res["types"] = jobs["types"].result()
+                tcounts = types_facet(ctx, res)
                 for k in ("reconf", "relayout", "propsym"):
                     res[k] = jobs[k].result()
                 rcounts = reconf_facets(ctx, res)
@@ -1510,10 +1598,12 @@ def run(ctx):
                 "random-walk kernel: symmetry flag x centre; %d emitted, every admitted object replayed); plus the behaviours of "
                 "MHOutside.<tier>.cfg (initial point of log-density -inf, uniform exactly 0; %d emitted, %d replayed); plus the cases of "
                 "MHMagnitude.<tier>.cfg (kernel x interface x level x log target ratio x log proposal ratio x uniform class; %d "
-                "emitted, %d replayed); plus recorded traces (non-trivial = contains a judged transition)" % (
+                "emitted, %d replayed); plus the cases of MHTypes.<tier>.cfg (kernel x interface x type of the step size (python / "
+                "numpy integers >= 2, integer arrays) x - pCN - prior class x type of the prior mean; %d emitted, %d transitions); "
+                "plus recorded traces (non-trivial = contains a judged transition)" % (
                     limit or len(behs), alimit or len(abehs), slimit or len(sbehs), wlimit or len(wbehs),
                     rcounts["reconf"][0], rcounts["reconf"][1], rcounts["layout"][0], rcounts["layout"][1], rcounts["propsym"][0],
-                    ocounts[0], ocounts[1], mcounts[0], mcounts[1]))
+                    ocounts[0], ocounts[1], mcounts[0], mcounts[1], tcounts[0], tcounts[1]))
     # every behaviour of the bounded emission instances was replayed
     ctx.exhaustive = (limit is None or len(behs) <= limit) and (alimit is None or len(abehs) <= alimit) and (
         slimit is None or nsrc <= slimit) and (wlimit is None or len(wbehs) <= wlimit) and all(
@@ -1537,6 +1627,9 @@ def run(ctx):
                         "extreme magnitudes: two-point table targets; the Langevin proposal is realised with scale 1, integer (or 2^499) "
                         "misfits and a drift table, so that the log proposal ratio is exactly the specification's half square in double "
                         "precision; the decision with the uniform exactly 0 is not asserted when exp(a + b) is not a normal double",
+                        "types of step size / prior mean (MHTypes): dimension 2, two-point table target (values of the spec at x and y, "
+                        "smooth fallback elsewhere); the Langevin increment w of the spec is scripted as the standard-normal value "
+                        "w / sqrt(eps); 0-d arrays and GMRF priors are not driven (refused / not N(m, I))",
                         "proposal objects: the increments of the catalogue are Gaussian N(mu, I) with mu in {0, 1}; a flag declared "
                         "by the caller of a user-defined distribution is truthful",
                         "aborted transitions: the failure is an exception raised by the target's log-density / drift / forward map "
@@ -1562,6 +1655,10 @@ def replay(ctx, case):
     if kind == "mag":
         from cuqiverif import mhmag_real as G
         G.run_case(ctx, case, {})
+        return
+    if kind == "typ":
+        from cuqiverif import mhtypes_real as Y
+        Y.run_case(ctx, case, {}, real=case.get("real"))
         return
     if kind == "chain":
         from cuqiverif import mhchain_real as C
